@@ -68,15 +68,36 @@ example : ("/ps/MK/files/f" : String) ≠ "" ∧ parsePath "/ps/MK/files/f" = so
     isPrefix ["ps", "MK", "files", "f"] ["ps", "outs"] = false ∧
     isPrefix (["ps", "outs"] ++ ["f.txt"]) ["ps", "MK", "files", "f"] = false := by decide
 
-/-- A file that does not exist (the stage did not create it) is recorded as
-null and the file system is untouched. -/
+/-- A file that does not exist (the stage did not create it), and whose
+destination under outs/ holds nothing, is recorded as null and the file system
+is untouched. -/
 theorem missing_is_null (ps outs : Path) (name s : String) (p : Path) (fs : FS)
-    (hs : s ≠ "") (hp : parsePath s = some p) (hnone : fs.get p = none) :
+    (hs : s ≠ "") (hp : parsePath s = some p) (hnone : fs.get p = none)
+    (hfree : fs.get (outs ++ [name]) = none) :
     moveOutFile ps outs name (.str s) fs = (.null, fs) :=
-  moveOutFile_missing ps outs name s p fs hs hp hnone
+  moveOutFile_missing ps outs name s p fs hs hp hnone hfree
+
+/-- Regenerated obligation: in the current source the "recorded path does not
+exist" branch of `moveOutFile` first tries to recover a file that an
+interrupted earlier post-process had already moved to outs/ (defect F22,
+repaired); on a tree where it only reports null this fails. -/
+theorem restart_recovers_moved_outputs : Gen.postProcessRecoversMoved = true := by decide
+
+/-- Restart after a kill between the rename into outs/ and leaving the symlink
+behind (F22, repaired): the recorded path holds nothing, but it lies inside the
+pipestance and its destination already holds a file or directory.  The output
+is NOT reported as null: the recorded value becomes the destination and the
+link back is put in place now; the destination itself is untouched. -/
+theorem missing_but_moved_is_recovered (ps outs : Path) (name s : String) (p : Path) (e : Entry) (fs : FS)
+    (hs : s ≠ "") (hp : parsePath s = some p) (hnone : fs.get p = none) (hin : inside ps p = true)
+    (hd : fs.get (outs ++ [name]) = some e) (hl : e.isLink = false) :
+    moveOutFile ps outs name (.str s) fs =
+      (.str (renderPath (outs ++ [name])),
+        symlinkAt fs p (.rel (relPath p.dropLast (outs ++ [name])))) :=
+  moveOutFile_recovered ps outs name s p e fs hs hp hnone hin hd hl
 
 example : parsePath "/ps/MK/files/nope" = some ["ps", "MK", "files", "nope"] ∧
-    exFS.get ["ps", "MK", "files", "nope"] = none := by decide
+    exFS.get ["ps", "MK", "files", "nope"] = none ∧ exFS.get (["ps", "outs"] ++ ["nope"]) = none := by decide
 
 /-- A regular file or directory outside the pipestance stays where it is, its
 recorded value is unchanged, and outs/name becomes a symlink to it. -/
@@ -313,6 +334,41 @@ theorem shape_preserved_mapped (ps : Path) (params : List (String × String × T
   exact ⟨fun xs => postArray_shape ps params top 0 xs fs, fun kvs => postMap_shape ps params top kvs fs⟩
 
 example (xs ys : List J) (R : J → J → Prop) (h : All2 R xs ys) : ys.length = xs.length := h.length_eq
+
+/-! ### the record stays valid under a crash or an I/O fault -/
+
+/-- Regenerated obligations: on the post-processing path the `_outs` record is
+written exactly once, with `Metadata.WriteAtomic`, and `writeAtomicAt` writes a
+temp file and then renames it over the target.  Replacing the call by an
+in-place writer (`Write`, `WriteRaw`, …) or re-ordering the steps breaks this. -/
+theorem outs_rewrite_is_atomic :
+    Gen.postProcessOutsWriters.map writerOfName = [some .atomic] ∧ Gen.writeAtomicSteps = atomicSteps := by
+  decide
+
+/-- With the writer found in the source, however far the single write of the
+record gets before a crash or an I/O error, the record file holds either the
+complete old record or the complete new one — never a fragment.  (Under the
+stated OS assumption; the harness checks the same on the real code by running
+post-processing under RLIMIT_FSIZE and under kill -9.) -/
+theorem record_old_or_new (old new : List UInt8) (k : Nat) :
+    ∀ w ∈ Gen.postProcessOutsWriters.filterMap writerOfName,
+      recordAfterFault w old new k = old ∨ recordAfterFault w old new k = new := by
+  intro w hw
+  have h : Gen.postProcessOutsWriters.filterMap writerOfName = [.atomic] := by decide
+  rw [h] at hw
+  rw [List.mem_singleton.mp hw]
+  simp only [recordAfterFault]
+  split
+  · exact Or.inr rfl
+  · exact Or.inl rfl
+
+/-- Negative witness: an in-place writer cut after 3 bytes leaves a fragment
+that is neither the old nor the new record. -/
+theorem inplace_writer_tears_record :
+    recordAfterFault .inplace [0x7B, 0x7D] [0x7B, 0x22, 0x61, 0x22, 0x3A, 0x31, 0x7D] 4 = [0x7B, 0x22, 0x61] ∧
+    recordAfterFault .inplace [0x7B, 0x7D] [0x7B, 0x22, 0x61, 0x22, 0x3A, 0x31, 0x7D] 4 ≠ [0x7B, 0x7D] ∧
+    recordAfterFault .inplace [0x7B, 0x7D] [0x7B, 0x22, 0x61, 0x22, 0x3A, 0x31, 0x7D] 4 ≠
+      [0x7B, 0x22, 0x61, 0x22, 0x3A, 0x31, 0x7D] := by decide
 
 /-! ### F5: multi-dimensional arrays (negative witness for the code before the repair) -/
 
